@@ -48,11 +48,11 @@ STD_ENUMS = {
     'core::task::poll::Poll': {'0': 'Ready', '1': 'Pending'},
 }
 
-Store = namedtuple('Store', 'S P T V len0 own resched sched pend')
+Store = namedtuple('Store', 'S P T V len0 own resched sched pend S0')
 
 
 def mk_store(T='N', P=None):
-    return Store(S=None, P=P, T=T, V=(), len0='?', own='?', resched=0, sched=0, pend=0)
+    return Store(S=None, P=P, T=T, V=(), len0='?', own='?', resched=0, sched=0, pend=0, S0=None)
 
 
 def vget(st, l):
@@ -433,7 +433,7 @@ class Proto:
         else:
             S = self.ALL
         st = self._unsame(st)
-        return st._replace(S=S, len0='?', own='?')
+        return st._replace(S=S, len0='?', own='?', S0=None)
 
     @staticmethod
     def _unsame(st):
@@ -445,9 +445,9 @@ class Proto:
     def _leave_region(self, st, fn=None, record=False):
         if record and fn is not None and st.S is not None:
             enums = tuple(sorted(set(v[1] for l, v in st.V if v and v[0] == 'enum' and self._is_local_enum(fn, l))))
-            self.events[('region_exit', fn.name, '')].add((st.S, st.T, enums, st.len0, st.own))
+            self.events[('region_exit', fn.name, '')].add((st.S, st.T, enums, st.len0, st.own, st.S0 if st.S0 is not None else st.S))
         P = st.S if st.T == 'H' else None
-        return st._replace(S=None, P=P, len0='?', own='?')
+        return st._replace(S=None, P=P, len0='?', own='?', S0=None)
 
     def _is_local_enum(self, fn, l):
         a = self.facts.adts.get(ty_head(fn.local_ty(l)))
@@ -653,7 +653,7 @@ class Proto:
                         T = 'H'
                     else:
                         role = 'nonowner'
-                x = x._replace(S=frozenset([s2]), T=T)
+                x = x._replace(S=frozenset([s2]), T=T, S0=x.S0 if x.S0 is not None else frozenset([s]))
                 if s2 != s:
                     x = self._unsame(x)
                 if role == 'owner' and s2 == 'Idle' and s != s2:
